@@ -3,5 +3,10 @@
 
 package verifhook
 
+import "net"
+
 // At marks a hook point. It does nothing in regular builds.
 func At(point string) {}
+
+// WrapConn returns the connection unchanged in regular builds.
+func WrapConn(c net.Conn) net.Conn { return c }
